@@ -412,15 +412,11 @@ def evalExpr (fns : List FnDef) : Nat → Env → Expr → R (Env × Val)
       | _ => .stuck "Some: payload"
     | .none => .ok (env, .opt none)
     | .ctor k args => do
-      let (env, vs) ← evalArgs fns n env args
-      match asInts vs with
-      | some fs => pure (env, .enm k fs)
-      | none => .stuck "constructor: payload"
+      let (env, fs) ← evalInts fns n env args
+      pure (env, .enm k fs)
     | .record fs => do
-      let (env, vs) ← evalArgs fns n env fs
-      match asInts vs with
-      | some fs => pure (env, .recd fs)
-      | none => .stuck "record: payload"
+      let (env, fs) ← evalInts fns n env fs
+      pure (env, .recd fs)
     | .field e i => do
       let (env, v) ← evalExpr fns n env e
       match v with
@@ -430,10 +426,8 @@ def evalExpr (fns : List FnDef) : Nat → Env → Expr → R (Env × Val)
         | none => .stuck "no such field"
       | _ => .stuck "field of a non-record"
     | .list es => do
-      let (env, vs) ← evalArgs fns n env es
-      match asInts vs with
-      | some xs => pure (env, .list xs)
-      | none => .stuck "list: element type"
+      let (env, xs) ← evalInts fns n env es
+      pure (env, .list xs)
     | .fstr ps => do
       let (env, s) ← evalParts fns n env ps
       pure (env, .str s)
@@ -446,6 +440,18 @@ def evalArgs (fns : List FnDef) : Nat → Env → Exprs → R (Env × List Val)
     let (env, v) ← evalExpr fns n env e
     let (env, vs) ← evalArgs fns n env es
     pure (env, v :: vs)
+
+/-- left to right, each value an `i32` (constructor arguments, record fields, list elements) -/
+def evalInts (fns : List FnDef) : Nat → Env → Exprs → R (Env × List Int)
+  | 0, _, _ => .fuel
+  | _ + 1, env, .nil => .ok (env, [])
+  | n + 1, env, .cons e es => do
+    let (env, v) ← evalExpr fns n env e
+    match v with
+    | .int x => do
+      let (env, xs) ← evalInts fns n env es
+      pure (env, x :: xs)
+    | _ => .stuck "payload is not an i32"
 
 /-- top to bottom; the bindings made inside are discarded by the caller -/
 def evalSeq (fns : List FnDef) : Nat → Env → Block → R (Env × Val)
